@@ -139,6 +139,24 @@ Theorem C15_session_path_inside_root :
 Proof. exact session_run_placed. Qed.
 Print Assumptions C15_session_path_inside_root.
 
+(* The whole chain from the two URL STRINGS (request URL and last-hop URL, both as
+   URLInfo.parse delivers them) to the opened path: no hypothesis about urlsplit. *)
+Theorem C15_session_from_url_strings :
+  forall (bracket_ok netloc_ok : str -> bool) sha1hex pylower pyupper,
+    sha1_shape sha1hex -> case_map_safe pylower -> case_map_safe pyupper ->
+    forall (fs_isfile fs_isdir fs_exists : str -> bool) (w : wflags) (fuel : nat) (c : cfg) (root url1 : str) (ftp1 need1 : bool)
+           (url2 : str) (ftp2 need2 : bool) (u1 : urlparts) (r : wresponse) (o : wout) (f : str),
+      index c <> [] ->
+      starts_with_scheme url1 -> starts_with_scheme url2 ->
+      urlparts_of bracket_ok netloc_ok pylower need1 url1 ftp1 = Ok u1 ->
+      urlparts_of bracket_ok netloc_ok pylower need2 url2 ftp2 = Ok (r_url r) ->
+      root_clean fs_isfile (initial_slashes root) (nstack root) ->
+      session_run sha1hex pylower pyupper fs_isfile fs_isdir fs_exists w fuel c root u1 r = Ok o ->
+      opened o f ->
+      placed c (initial_slashes root) (nstack root) f.
+Proof. exact session_from_urls. Qed.
+Print Assumptions C15_session_from_url_strings.
+
 (* the name process_request chooses (it stays the session's file name when the
    response opens nothing) *)
 Theorem C15_request_name_inside_root :
